@@ -74,6 +74,35 @@ func (ch *chain) buildTx(tx *hTx) *builtTx {
 		}
 		return bt
 	}
+	if tx.Kind == "rawmut" {
+		// a valid signed send whose encoded bytes are then truncated / bit-flipped / spliced
+		inner := *tx
+		inner.Kind, inner.Mut, inner.Replay = "send", "", 0
+		inner.Amt, inner.Rel = 1, ""
+		base := ch.buildTx(&inner)
+		b := append([]byte{}, base.Bytes...)
+		n := len(b)
+		pos := mod(int(tx.Amt), n+1)
+		switch tx.Str {
+		case "truncate":
+			b = b[:pos]
+		case "flip":
+			if n > 0 {
+				b[mod(pos, n)] ^= byte(1 << uint(mod(tx.To, 8)))
+			}
+		case "splice":
+			b = append(append([]byte{}, b[:pos]...), base.Bytes...)
+		case "lenprefix":
+			if n > 0 {
+				b[0] ^= 0x7f
+			}
+		default:
+			b = append(b, byte(tx.To))
+		}
+		bt.Bytes = b
+		bt.Mutated = true
+		return bt
+	}
 	if tx.Kind == "raw" {
 		b, err := hex.DecodeString(tx.Str)
 		if err != nil {
